@@ -146,7 +146,7 @@ class World:
         self.identities.append(i)
         return i
 
-    def open(self, dest=None, ident=None, record=True, src_port=0, is_root=None, uid=None, pid=None, raw_record=None, timeout=20):
+    def open(self, dest=None, ident=None, record=True, src_port=0, is_root=None, uid=None, pid=None, raw_record=None, timeout=60):
         """open a client connection to the proxy listener; if record, inject the kernel record for its source port first"""
         c = rawhttp.Conn("127.0.0.1", 3080, src_port=src_port, connect=False, timeout=timeout)
         if record:
